@@ -20,6 +20,7 @@ from . import common, structure, trav, trav_plans, travcheck
 EAGER_MENU = [
     ("G1", {}), ("G2", {}), ("G3", {}), ("G6b", {}),
     ("G1", {"nets": "net2 net1"}), ("G2", {"nets": "net3 net1 net2"}), ("G4f", {"nets": "net1"}), ("G4g", {}),
+    ("G1", {"nets": "net5 net1", "vm_strs": {"vm1": "", "vm2": "only Win10\n", "vm3": "only Ubuntu\n"}, "label": "G1-restricted-first-worker"}),
     ("G1", {"vm_strs": {"vm1": "only CentOS,Fedora\n", "vm2": "only Win10\n", "vm3": "only Ubuntu\n"}, "label": "G1-multivariant"}),
     ("G2", {"vm_strs": {"vm1": "only Fedora\n", "vm2": "only Win10\n", "vm3": "only Ubuntu\n"}, "nets": "net1", "label": "G2-fedora"}),
 ]
